@@ -151,6 +151,10 @@ func localisationJudge(root string, c GCase, rep *CaseReport) []Judgement {
 			add("C17|acceptance-differs", "the set of converter interfaces differs (model "+rep.Model.Status+", run "+rep.CLI.Class+"): "+firstLine(strings.Join(rep.Diffs, " / ")))
 		}
 	}
+	if judgeProp == "C06" && rep.Model.Status == "ok" && rep.CLI.Class == "error" {
+		add("C06|valid-notations-rejected", "the notations of this setup file are valid (a :conv target may be generated in the same run), yet the run fails: "+
+			firstLine(strings.Join(canonStderr(rep.CLI.Stderr, root), " / ")))
+	}
 	if judgeProp == "C17" {
 		notFound := func(lines []string) bool {
 			for _, l := range lines {
@@ -184,6 +188,10 @@ func localisationJudge(root string, c GCase, rep *CaseReport) []Judgement {
 		case "C17":
 			if (rep.Model.Status == "ok") != (rep.CLI.Class == "ok") {
 				add("C17|acceptance-differs", "which files have a converter interface: "+d)
+			}
+		case "C06":
+			if rep.Model.Status == "ok" && rep.CLI.Class == "error" {
+				add("C06|valid-notations-rejected", "the notations of this setup file are valid (a :conv target may be generated in the same run), yet the run fails: "+d)
 			}
 		case "C07", "C10", "C08":
 			if rep.Model.Status == "error" && rep.CLI.Class == "ok" {
